@@ -50,6 +50,28 @@ def runOp (op : String) (args : List String) : String :=
       | .ok (s, _) => hex s
       | _ => "err"
     | _ => "bad-op"
+  | "hdr.unpack", [w] => match w.toNat? with
+    | some w =>
+      let h := unpackBits (BitVec.ofNat 16 w)
+      " ".intercalate [showB h.response, toString h.opcode, showB h.authoritative, showB h.truncated,
+        showB h.recursionDesired, showB h.recursionAvailable, showB h.zero, showB h.authenticatedData,
+        showB h.checkingDisabled, toString h.rcode]
+    | _ => "bad-op"
+  | "hdr.pack", [qr, op, aa, tc, rd, ra, z, ad, cd, rc] =>
+    match op.toNat?, rc.toNat? with
+    | some op, some rc =>
+      let h : MsgHdr := ⟨qr == "1", op, aa == "1", tc == "1", rd == "1", ra == "1", z == "1", ad == "1", cd == "1", rc⟩
+      toString (packBits h).toNat
+    | _, _ => "bad-op"
+  | "rcode.split", [rc, opt] => match rc.toNat? with
+    | some rc => match splitRcode rc (opt == "1") with
+      | some (n, some t) => s!"ok {n} {t}"
+      | some (n, none) => s!"ok {n} -"
+      | none => "err"
+    | _ => "bad-op"
+  | "rcode.join", [n, t] => match n.toNat? with
+    | some n => toString (joinRcode n (if t == "-" then none else t.toNat?))
+    | _ => "bad-op"
   | "lab.count", [t] => match unhex t with
     | some s => toString (countLabel s) | _ => "bad-op"
   | "lab.split", [t] => match unhex t with
